@@ -137,8 +137,9 @@ def Mgen(n, A=3, E=3, seed=1):
                 rew[s, a, e] = float(nxt_rand(7) - 3)
             prob[s, a] = pat
     if n >= 2:
-        nxt[n - 1] = n - 1  # absorbing last state
+        nxt[n - 1] = n - 1  # absorbing last state; all actions identical rows (an exact, unambiguous tie)
         rew[n - 1] = 0.5
+        prob[n - 1] = prob[n - 1, 0]
     nxt[0, 1] = nxt[0, 0]
     rew[0, 1] = rew[0, 0]
     prob[0, 1] = prob[0, 0]  # duplicated action (exact tie)
